@@ -16,11 +16,14 @@ import (
 // quiescence releases it - this is how a slow listener and every relative scheduling of the
 // dispatch goroutines is represented, and it replays natively with real goroutines.
 //
+// With gap != 0 the emitter pauses after every event so that the dispatch runs in between (an
+// event then arrives while the listener is busy with the last one queued so far).
+//
 // Asserted: the emitter is never blocked by a slow listener; no invocation starts while another one
 // of the same listener is still running; the listener sees the events in emission order (so a
 // message's stored before its deleted, and deliveries in arrival order); every event is seen
 // exactly once.
-func VerifC16Order(n int, mixed int) {
+func VerifC16Order(n int, mixed int, gap int) {
 	vrf.ResetGates()
 	host := NewHost()
 	var mu sync.Mutex
@@ -67,12 +70,16 @@ func VerifC16Order(n int, mixed int) {
 				want = append(want, "S"+ev.ID)
 				host.Events.AfterMessageStored.Emit(&ev)
 			}
+			if gap != 0 {
+				// the dispatch gets going (as far as it can) before the next event is emitted
+				vrf.Quiesce()
+			}
 		}
 		emitted <- true
 	}()
 	select {
 	case <-emitted:
-	case <-time.After(2 * time.Second):
+	case <-time.After(4 * time.Second):
 		vrf.Assert("emit-never-blocks-the-emitter", false)
 		for j := 1; j <= n; j++ {
 			vrf.Open("h" + vrfTag(j))
